@@ -26,7 +26,9 @@ def analyse_lt(ck, prog, fn, rule_prefix, oracle, quantities, time_name='time'):
     results = {}
     for mode in ('numeric', 'clear'):
         args = [Str.lit('clear') if (p == 'accum' and mode == 'clear') else V(p) for p in params]
-        outs = Interp(prog).run(fn, args)
+        it_ = Interp(prog)
+        it_.trace_arith = True
+        outs = it_.run(fn, args)
         results[mode] = outs
         ck.saw('paths', '%s[%s]: %d paths' % (fn.qualname, mode, len(outs)))
         for o in outs:
